@@ -73,7 +73,7 @@ def case_strategy(draw, variant):
     opsl = [o for o in gbops.REDUCTIONS8 if not (o == "sum" and any(data.val_kind(v) == "M" for v in vals))]
     if vals_as == "list_scalars" and vkind in "mM":
         vals_as = "np"
-    return {"n": n, "keys": keys, "vals": vals, "mask": draw(S.mask_spec(n, kinds=("none", "none", "bool", "slice"))),
+    return {"n": n, "keys": keys, "vals": vals, "mask": draw(S.mask_spec(n, kinds=("none", "none", "bool", "slice"), steps=layout == "contiguous")),
             "op": draw(st.sampled_from(opsl)), "sort": draw(st.booleans()), "observed_only": draw(st.sampled_from([True, True, False])),
             "keys_as": keys_as, "vals_as": vals_as, "layout": layout, "threshold": draw(st.integers(1, n)), "key_chunks": draw(st.integers(1, 5)),
             "names": draw(st.sampled_from(["str", "str", "int", "falsy"]))}
